@@ -921,6 +921,8 @@ theorem tukeyPt_range (r : ℝ) (N i : ℕ) : 0 ≤ tukeyPt r N i ∧ tukeyPt r 
     · exact hannPt_range N i
     · simp only []
       split
+      · simp
+      split
       · simp only [fn_cos, fn_ofNat]
         generalize (Fn.pi / (r / ((2:ℕ):ℝ)) * ((i:ℝ) / ((N - 1 : ℕ):ℝ) - r / ((2:ℕ):ℝ))) = y
         have h1 := Real.neg_one_le_cos y
@@ -1025,6 +1027,15 @@ theorem tukeyPt_mid (r : ℝ) (h0 : 0 < r) (h1 : r < 1) (N i : ℕ) (hN : 2 ≤ 
     push_cast
     rw [taper_cond, div_le_iff₀ hNr]
   simp only [hc]
+  by_cases hi : i = 0
+  · -- `w[0] = 0;`: the closed form at the first point is (1 + cos(-π))/2 = 0
+    subst hi
+    have h0' : ((0 : ℕ) : ℝ) / ((N : ℝ) - 1) ≤ r / 2 := by simp; linarith
+    have e : 2 * π / r * (((0 : ℕ) : ℝ) / ((N : ℝ) - 1) - r / 2) = -π := by
+      push_cast; field_simp; ring
+    rw [if_pos rfl, if_pos h0', e, Real.cos_neg, Real.cos_pi]
+    norm_num
+  rw [if_neg hi]
   split
   · push_cast; congr 3; field_simp
   · simp
